@@ -138,6 +138,15 @@ func quiesceT(h *hlog, maxWait time.Duration, tw *timerWatch) bool {
 		} else if !tw.pending() {
 			stable++
 			if stable >= 2 {
+				if quiescePatience > 0 {
+					time.Sleep(quiescePatience)
+					if !(allBlocked() && h.len() == n) {
+						tw.touch()
+						stable = 0
+						last = h.len()
+						continue
+					}
+				}
 				return true
 			}
 		}
